@@ -17,6 +17,21 @@ fn gen_random(r: &mut SimRng, asset: usize, centre: u32, corner: bool) -> AgentS
     AgentSpec::Random { asset, n, tick_lo: lo, tick_hi: hi, vol_lo, vol_hi, activity }
 }
 
+/// Random agents whose (non-empty) tick range touches an end of the price domain: tick 0 (an ask drawn there is priced 0,
+/// which the book executes as a market order) or - `at_top`, for tick sizes dividing 2^32-1 - the tick priced 2^32-1.
+fn gen_random_edge(r: &mut SimRng, asset: usize, tick: u32, at_top: bool) -> AgentSpec {
+    let n = r.range(1, 8) as usize;
+    let w = r.range(1, 5) as u32;
+    let (lo, hi) = if at_top && tick > 1 && u32::MAX % tick == 0 {
+        let top = u32::MAX / tick;
+        (top - w, top + 1)
+    } else {
+        (0, w + 1)
+    };
+    let vol_lo = r.range(1, 50) as u32;
+    AgentSpec::Random { asset, n, tick_lo: lo, tick_hi: hi, vol_lo, vol_hi: vol_lo + r.range(1, 20) as u32, activity: *r.pick(&[1.0f32, 1.0, 0.9, 1.5]) }
+}
+
 fn prob(r: &mut SimRng, corner: bool) -> f32 {
     if corner {
         *r.pick(&[0.0f32, 0.0, 1.0, 1.0, 2.0, 0.3, 0.7, 0.02])
@@ -175,7 +190,18 @@ pub fn generate_c16(seed: u64) -> W4Scn {
         cfg.centre = r.range(200, 5000) as u32;
     }
     let heavy = r.chance(0.5);
-    let agents = gen_groups(&mut r, &cfg, true, heavy);
+    let mut agents = gen_groups(&mut r, &cfg, true, heavy);
+    if r.chance(0.06) {
+        // a random group on an end of the price domain, alone or next to the other groups
+        let asset = r.usize(cfg.assets);
+        let at_top = r.chance(0.4);
+        let g = gen_random_edge(&mut r, asset, cfg.ticks[asset], at_top);
+        if r.chance(0.5) {
+            agents = vec![g];
+        } else {
+            agents.push(g);
+        }
+    }
     let kind = if r.chance(0.12) { 4 + r.below(2) } else { r.below(4) };
     let initial = gen_initial(&mut r, &cfg, kind);
     let mut inject = vec![];
